@@ -13,6 +13,8 @@ CONSTANTS
   MaxTx = 4
   SupplyCap = 8
   DataVals = {7, 8}
+  ConsArgs <- ConsNone
+  ConArgs <- ConsNone
   InitLedgers <- InitNU
   FailOdds = 5
   EndOdds = 2
